@@ -233,7 +233,21 @@ impl GenState {
                 self.now = self.now.max(t);
                 return GenOp::Now(self.now);
             }
-            12 => nonstandard(rng, &key, opaque),
+            12 => {
+                if rng.chance(1, 3) {
+                    // a store whose body exceeds the item size limit: answered "too large", correlated, nothing stored
+                    let extra = rng.range(1, 40) as usize;
+                    let opc = *rng.pick(&[op::SET, op::ADD, op::REPLACE, op::SETQ, op::APPEND, op::PREPENDQ]);
+                    let v = vec![b'x'; self.item_limit as usize + extra];
+                    if matches!(opc, op::APPEND | op::PREPENDQ) {
+                        wire::append_like(opc, &key, &v, 0, opaque)
+                    } else {
+                        wire::set_like(opc, &key, &v, rng.next() as u32, 0, 0, opaque)
+                    }
+                } else {
+                    nonstandard(rng, &key, opaque)
+                }
+            }
             _ => {
                 let mut f = Frame::new(*rng.pick(&[0x1cu8, 0x1d, 0x1e, 0x20, 0x21, 0x22, 0x23, 0x24]));
                 f.opaque = opaque;
